@@ -24,7 +24,7 @@ def run(ctx):
         "clean_mathml, the chemistry pass and trim_element are NOT modelled: for them the property is decided on the implementation, tree by tree, by the Lean checker MC.Spec.Canon.conserves",
         "the documented normalizations are the character homomorphism MC.Spec.Canon.expand followed by collapse (hyphen runs); expandChar_nil_iff and collapse_filter bound what they can hide: "
         "only white space, the four invisible operators and the length of a hyphen run",
-        "python's xml.etree parser reads both the input and the returned string"], extra_modules=["MC.Props.C01Clean", "MC.Props.C01Trim"])
+        "python's xml.etree parser reads both the input and the returned string"], extra_modules=["MC.Props.C01Clean", "MC.Props.C01Trim", "MC.Props.C01Out"])
     rng = ctx.rng
     n = 6000 if ctx.tier == "quick" else 150000
     results = canon_run.run_stream(ctx, im, mo, n, canon_run.LOCALES)
